@@ -11,7 +11,7 @@ NOT_APPLICABLE = {
 
 PLAN = {
     "C01": dict(
-        verus=[], kani=["slots", "wkc", "storage", "rx"], level="proof",
+        verus=[], kani=["slots", "wkc", "storage", "rx"], assumptions=['Kani has no threads: every operation is proved from an arbitrary slot state; their composition under concurrency is the Verus lemma slot_protocol plus the memory-model assumption', 'receive_frame / lookup harnesses are bounded in slots, slot size and input length (listed under bounded_not_counted_as_proved)', 'the contract of the 2nd and later items of ReceivedPduIter is assumed (CBMC does not finish two calls)'], level="proof",
         claim="sequential core of response routing on the real code (Kani): index lookup returns the lowest matching slot and never an empty one; "
               "receive_frame stores the response byte-exact into exactly the Sent slot that owns the first datagram index and marks it RxDone; "
               "poll returns Ok only from RxDone; first_pdu validates command/index and views exactly the datagram's data area; trim_front "
@@ -21,7 +21,7 @@ PLAN = {
              "atomic slot operations whose sequential contracts are proved here (C02 composition argument); known finding D2 (view outlives its slot)",
     ),
     "C02": dict(
-        verus=["slot_protocol"], kani=["slots", "storage", "tx"], level="proof",
+        verus=["slot_protocol"], kani=["slots", "storage", "tx"], assumptions=['interleaving semantics of atomic operations (no weak-memory effects beyond Release/Acquire happens-before)'], level="proof",
         claim="rely/guarantee: (1) every slot operation of the real code performs exactly the transition of the protocol table from an arbitrary "
               "pre-state and touches nothing else (Kani, all 8 states, loop-free => complete); (2) the protocol machine built from that table keeps "
               "'at most one party inside each buffer' as an inductive invariant for any number of slots and tasks (Verus lemma)",
@@ -29,14 +29,14 @@ PLAN = {
              "(PduTx / PduRx exist once: try_split proved); memory-ordering arguments are not machine-checked",
     ),
     "C03": dict(
-        verus=["slot_protocol"], kani=["slots", "storage"], level="proof",
+        verus=["slot_protocol"], kani=["slots", "storage"], assumptions=['as C02'], level="proof",
         claim="every release path returns the slot (CreatedFrame::drop, ReceivedFrame::drop, ReceiveFrameFut::drop, poll timeout, send failure, reset) and "
               "alloc_frame fails only when no slot is None, touching no other slot (Kani; alloc per N in {1,2,(4)} with all state vectors and cursors); "
               "lemma: a slot that is not None is held by a live handle or by TX/RX",
         note="alloc_frame is proved per storage size N (configurations enumerated), not for symbolic N",
     ),
     "C04": dict(
-        verus=["created_frame"], kani=["frame_build", "frame_header", "slots"], level="proof",
+        verus=["created_frame"], kani=["frame_build", "frame_header", "slots"], assumptions=['FrameBox accessors (pdu_buf_mut, add_pdu, pdu_payload_len) are assumed in the Verus unit created_frame; their pointer code is exercised by the bounded Kani harnesses'], level="proof",
         claim="CreatedFrame::push_pdu / push_pdu_slice_rest / can_push_pdu_payload / is_empty and generate::write_packed extracted WHOLE and verbatim (Verus, any frame "
               "size <= 2047, any number of datagrams, any payload): Ok iff old used + max(len, override) + 12 <= capacity, the used length advances by exactly that, a refused push "
               "returns TooLong and changes nothing, fill-the-rest is cut to min(len, free-12) and says so and never errs, bytes beyond the new datagram are untouched, the "
@@ -48,13 +48,13 @@ PLAN = {
              "pointer code is in the Kani groups); the BYTE CONTENT harnesses are bounded in frame size and datagram count (stated under bounded_not_counted_as_proved)",
     ),
     "C05": dict(
-        verus=[], kani=["rx", "storage", "slots", "frame_header"], level="proof",
+        verus=[], kani=["rx", "storage", "slots", "frame_header"], assumptions=['bounded: N=2 slots, 44-byte slots, inputs <= 50 bytes'], level="proof",
         claim="receive_frame on arbitrary bytes: totality, Ignored/Err leave buffers and markers untouched, strangers ignored, unmatched index never accepted "
               "(Kani bounded stand-in: N=2, DATA=44, length<=50, everything else symbolic); claim_receiving / lookup / marker functions complete",
         note="the length and slot-count bounds are stated in the evidence under bounded_not_counted_as_proved",
     ),
     "C06": dict(
-        verus=["slot_protocol"], kani=["slots"], level="proof",
+        verus=["slot_protocol"], kani=["slots"], assumptions=['virtual clock: embassy_time_driver::now / schedule_wake and timer_factory::timer are stubbed; real time is not modelled', 'known findings C06-U1..U5 are suppressed by exact obligation key only'], level="proof",
         claim="ReceiveFrameFut::poll decision table for all 8 slot states x deadline passed/not x every retry count under a virtual clock, and Drop: "
               "RxDone wins, expired & 0 retries -> Timeout(Pdu), retry re-arms and leaves buffer+length untouched (byte-identical retransmission), "
               "never Ok unless RxDone (Kani, loop-free, complete); send_blocking outcome table; the five (state, transition) pairs that are unsafe "
@@ -63,7 +63,7 @@ PLAN = {
              "for embassy_time_driver); known findings C06-U1..U5",
     ),
     "C07": dict(
-        verus=["group_cycle", "created_frame"], kani=["wkc", "frame_build"], level="proof",
+        verus=["group_cycle", "created_frame"], kani=["wkc", "frame_build"], assumptions=['ECHO-SHAPE: a response frame has the datagram boundaries of the request frame (contents and counters arbitrary)', 'CreatedFrame is seen through its accounting contract (proved in unit created_frame), ReceivedPduIter::next through an assumed contract for items after the first'], level="proof",
         claim="SubDeviceGroup::tx_rx, tx_rx_sync_system_time and tx_rx_dc extracted WHOLE and verbatim (Verus, any image length <= MAX_PDI, any input/output split, any number of SubDevices, any "
               "frame size from one state check up to 2047): each frame's process-data datagram is an LRW at start + (bytes sent so far) carrying exactly the next "
               "n = min(bytes left, free-12) > 0 image bytes (chunks tile the window contiguously, no gap, no overlap); the output part of the image is untouched; "
@@ -76,7 +76,7 @@ PLAN = {
              "not finish two calls); 'states in group order' is proved as a count, not per entry; 'reported system time is the FRMW answer' is not stated",
     ),
     "C18": dict(
-        verus=["dc_arith", "dc_sync", "group_cycle"], kani=[], level="proof",
+        verus=["dc_arith", "dc_sync", "group_cycle"], kani=[], assumptions=['A-C18-1: reference time + start delay is representable in 64 bits', 'a SYNC0 period of 0 is outside the quantifier (division by zero, D19)', 'effects are observed through positive predicates: order of writes and absence of other writes are not decided'], level="proof",
         claim="configure_dc_sync from the device filter to the end of the per-device loop as ONE fragment (Verus, any group, any reference time): exactly the devices with DC "
               "support and a DcSync other than Disabled are programmed (the filter closure is proved to decide that predicate), each is sent 0 to 0x0981, a start time to 0x0990 "
               "that is a multiple of the period in (t+d-p, t+d], the period to 0x09A0, for Sync01 its SYNC1 period to 0x09A4, and activation flags 0x03 (Sync0) resp. 0x07 "
@@ -89,7 +89,7 @@ PLAN = {
              "drift compensation loop",
     ),
     "C19": dict(
-        verus=[], kani=["@wire", "wire_impls"], level="translation_validation",
+        verus=[], kani=["@wire", "wire_impls"], assumptions=['the derive macro is validated per instance (its output), not as a program; the corpus is fixed (13 layouts outside the crate)', 'known finding C19-A1'], level="translation_validation",
         claim="every #[derive(EtherCrabWire*)] type in /repo/src AND a fixed corpus of 13 derive inputs that do not occur in the crate (enums with default / catch-all / "
               "both / alternatives / 32-bit repr, bit and byte skips, nested enum and struct fields, array, 64-bit field, read-only struct with a skipped field): the derive OUTPUT (the code that runs) is validated against a layout computed "
               "independently from the #[wire] attributes, for all byte strings and all field values (Kani, loop-free, complete per type): field bit positions, "
@@ -101,7 +101,7 @@ PLAN = {
              "f32/f64, heapless::Vec/String impls are not under contract; KNOWN FINDING C19-A1: buffer() of arrays of multi-byte items is shorter than PACKED_LEN",
     ),
     "C14": dict(
-        verus=["eeprom_range", "subdevice_eeprom", "eeprom_device"], kani=["eeprom_alias"], level="proof",
+        verus=["eeprom_range", "subdevice_eeprom", "eeprom_device"], kani=["eeprom_alias"], assumptions=['provider contract: write_word(w, d) stores d at word w of the one device all clones of the provider talk to', 'the CRC-8 used is the uninterpreted function crc8_etg; table == bitwise CRC-8 on all 14-byte inputs is the Kani harness alias_crc_table', 'A-TIME-1 for the busy polls'], level="proof",
         claim="SubDeviceEeprom::set_station_alias extracted WHOLE (Verus, any EEPROM contents, any chunk size): on Ok the alias word (word 4) was written with the new alias "
               "and the checksum word (word 7) with [CRC-8 of the first fourteen bytes as they read after the change, 0]; each of the two writes goes through a one-word "
               "window, so no other word can be touched (write never starts a word at or past its window end); embedded-io's write_all extracted from the dependency source "
@@ -115,7 +115,7 @@ PLAN = {
              "'the alias reported afterwards is the new one' needs a device model (not stated); wait_while_busy (polling under `async{}.timeout()`) is the arbitrary device",
     ),
     "C15": dict(
-        verus=["sdo", "mailbox", "init_addr"], kani=["mbx"], level="proof",
+        verus=["sdo", "mailbox", "init_addr"], kani=["mbx"], assumptions=['the device is arbitrary: every status and mailbox read returns any value', 'decoders of the two fn-local reply shapes (HeadersRaw, EmergencyData) are assumed to decode what their #[wire] attributes say', 'EtherCrabWireSized::buffer() returns PACKED_LEN bytes - FALSE for arrays of multi-byte items (known finding C19-A1)', 'A-TIME-1'], level="proof",
         claim="Coe::mailbox_write_read extracted WHOLE (Verus, device = arbitrary reply bytes of any length): the request bytes written to the write mailbox are exactly "
               "request.pack() with the mailbox's address and length, and the outcome is exactly triage(request, reply): emergency -> Emergency error with the code/register "
               "decoded right after the 8 header bytes, abort -> Aborted with the device's abort code and the reply's index/sub-index, foreign mailbox type or an index/sub-index "
@@ -138,7 +138,7 @@ PLAN = {
              "other header wire layouts are the C19 harnesses",
     ),
     "C16": dict(
-        verus=["sdo", "mailbox"], kani=["wkc", "mbx"], level="proof",
+        verus=["sdo", "mailbox"], kani=["wkc", "mbx"], assumptions=['as C15'], level="proof",
         claim="for an ARBITRARY reply of arbitrary length (wait_for_mailbox_response returns any bytes): mailbox_write_read's header triage (HeadersRaw / emergency / abort "
               "decode, trims) extracted whole, and - against any headers and bytes coming out of it - sdo_read (all three "
               "modes incl. the segmented loop), sdo_read_expedited, sdo_write and the SDO-info fragment loop of send_sdo_info_service never underflow/overflow, "
@@ -147,7 +147,7 @@ PLAN = {
         note="sdo_info_object_description_list / quantities decode the accumulated buffer through derive output (C19)",
     ),
     "C17": dict(
-        verus=["dc_params"], kani=["ports", "dc"], level="proof",
+        verus=["dc_params"], kani=["ports", "dc"], assumptions=['tree harnesses are bounded in the number of devices (listed)', 'latch_dc_times changes times only (assumed)', "R19: integer `as` casts carry Rust's truncating meaning"], level="proof",
         claim="write_dc_parameters extracted WHOLE (Verus, every u64 receive time and master time): the offset sent to 0x0920 of the device's own station address is (master time - latched receive time) in 64-bit two's complement, the propagation delay computed for it goes to 0x0928, no overflow; configure_subdevice_offsets leaf (Kani, bounded: 1 parent + 1 child, all port times symbolic): the accumulated delay never decreases and is always assigned. 4-port functions of Ports proved against closed-form specs for all 16 activity patterns x all u32 times x all downstream assignments "
               "(Kani, unwinding assertions on: complete). Tree level (assign_parent_relationships / find_subdevice_parent / configure_subdevice_offsets): "
               "bounded stand-ins for N<=2 devices with symbolic link reports and N=3 chain with symbolic link delays (thorough) - labelled bounded, not counted as proved",
@@ -157,7 +157,7 @@ PLAN = {
              "Verus models `as i64` of a u64 only when the cast is marked truncating (logged substitution, same meaning as Rust's)",
     ),
     "C08": dict(
-        verus=["pdi_config", "group_config"], kani=[], level="proof",
+        verus=["pdi_config", "group_config"], kani=[], assumptions=['configure_pdos_eeprom / configure_pdos_coe are ASSUMED to return the segment [offset in, offset out) with offset out >= offset in (iterator adapters)', 'ESC hardware semantics of sync managers and FMMUs'], level="proof",
         claim="SubDeviceGroup::configure_fmmus extracted WHOLE (Verus, any number of devices, any sizes): on Ok the windows tile the image in group order - inputs "
               "[pos_i, pos_i+1) from 0 up to read_pdi_len, then outputs from read_pdi_len up to pdi_len (all inputs before all outputs, mutually disjoint, inside the image) - "
               "and read_pdi_len <= pdi_len <= MAX_PDI (the precondition C07's cycle relies on), so a layout that does not fit can only end in an error; "
@@ -172,7 +172,7 @@ PLAN = {
              "`window_assigned` of the contract proved in pdi_config; ESC hardware semantics assumed",
     ),
     "C09": dict(
-        verus=["init_addr"], kani=[], level="proof",
+        verus=["init_addr"], kani=[], assumptions=['the devices are not modelled: register writes and reads are observed through uninterpreted predicates', "SubDevice::new's front part (wait for INIT, EEPROM ownership, identity, name) is cut off the fragment"], level="proof",
         claim="the two per-position loops of MainDevice::init, verbatim fragments (Verus, any n): Ok => the device at EVERY ring position i < n was sent "
               "APWR(auto-increment address 0-i, register 0x0010) <- 0x1000+i, the addresses are pairwise distinct; then exactly n SubDevice::new(i, 0x1000+i) "
               "in ring order are stored; n > MAX_SUBDEVICES is Err(Capacity) - never a panic or a silent truncation; Command::apwr negates the position; ORDER: every "
@@ -184,7 +184,7 @@ PLAN = {
              "return (outside the fragments). A device model would be a different technique family.",
     ),
     "C10": dict(
-        verus=["group_cycle", "wrapped", "pdi_config", "state_wait"], kani=["summaries"], level="proof",
+        verus=["group_cycle", "wrapped", "pdi_config", "state_wait"], kani=["summaries"], assumptions=['A-TIME-1: an await inside a timeout scope that suspends takes positive time; TimeoutFuture::poll tests its timer whenever the task is resumed (rule R18 model)', 'ECHO-SHAPE network assumption for is_state', 'per-device request seen through the abstraction `state_requested` of the contract proved in pdi_config'], level="proof",
         claim="wait_for_state extracted WHOLE with its timeout scope made explicit (rule R18): Ok only if one sweep found every member in the requested state, and the polling "
               "loop lies inside the state-transition timeout scope with the remaining time as its termination measure (a stalled device ends in the timeout error, not in an "
               "endless loop); transition_to's request loop + wait as one fragment: Ok only if the request was written to and acknowledged by EVERY member and every member then "
@@ -200,14 +200,14 @@ PLAN = {
              "groups larger than 3",
     ),
     "C11": dict(
-        verus=["wrapped"], kani=["wkc"], level="proof",
+        verus=["wrapped"], kani=["wkc"], assumptions=['MainDevice::single_pdu (`common`) returns an arbitrary datagram or an error (`net_failed`)'], level="proof",
         claim="ReceivedPdu::wkc/maybe_wkc proved for every counter/expected value (Kani, loop-free, complete); WrappedRead/WrappedWrite "
               "constructors and receive/receive_slice/receive_wkc/send_receive/send_receive_slice proved against an arbitrary network answer (Verus): "
               "Ok(_) implies the counter was accepted by the configured expectation",
         note="network (MainDevice::single_pdu) abstracted as an arbitrary datagram; callers of the wrapped methods not yet under contract",
     ),
     "C12": dict(
-        verus=["eeprom_range", "subdevice_eeprom", "eeprom_items"], kani=[], level="proof",
+        verus=["eeprom_range", "subdevice_eeprom", "eeprom_items"], kani=[], assumptions=['EEPROM provider contract: read_chunk(w) returns mem[2w .. 2w+k), k in {4, 8}, and does not change the memory', 'derive-generated decoders are uninterpreted functions of the bytes (their layouts: C19)'], level="proof",
         claim="EepromRange::{new,skip_ahead_bytes,read_byte,read} proved against the provider's ghost memory for every position, window, buffer length and chunk size "
               "(Verus, unbounded loop invariant): read returns exactly mem[pos..pos+n), n = min(len, window left), never beyond the window; the dependency's read_exact on top of it; "
               "SubDeviceEeprom::start_at (window = length rounded up to a word), size (from word 0x3e), category (walk with termination measure); find_string's body from the count byte "
@@ -221,7 +221,7 @@ PLAN = {
              "derive-decoded items (sync managers, FMMUs, PDOs, general, identity: wire layouts = C19) are not under a functional contract",
     ),
     "C13": dict(
-        verus=["eeprom_range", "subdevice_eeprom", "eeprom_items", "pdi_config"], kani=[], level="proof",
+        verus=["eeprom_range", "subdevice_eeprom", "eeprom_items", "pdi_config"], kani=[], assumptions=['as C12', 'the repaired PDO bit-length sum of configure_pdos_eeprom is guarded by its demonstration, not by a contract'], level="proof",
         claim="no overflow / out-of-bounds / panic and termination of EepromRange::{new,skip_ahead_bytes,read_byte,read,write}, read_exact, write_all, start_at, size, the "
               "category walk (terminates: measure 0x10000 - word address; no overflow of the chain) and the find_string fragment (incl. the SAFETY condition of the unsafe "
               "set_len: length <= capacity, carried as a precondition - rule R17), and the item loops pdos / fmmu_mappings / sync_managers (terminate: every item "
